@@ -21,7 +21,13 @@ Definition mon_status (sn : eds_snapshot) (e : eds) (u : ers) (st' : eds_status)
                (Bool.eqb (is_cond_true (es_conds st') ECT_CanaryFailed) (spec_cond_failed f) &&
                 Bool.eqb (is_cond_true (es_conds st') ECT_CanaryPaused) (spec_cond_paused f))) 13 ++
       code_if (negb (sf_canary_strategy f) || sf_canary_active f ||
-               match es_canary st' with None => true | Some _ => false end) 14
+               match es_canary st' with None => true | Some _ => false end) 14 ++
+      (* while the canary is active, a Canary-Paused condition that is True names the reason the canary is paused for now
+         (status.reason) *)
+      code_if (negb (sf_canary_strategy f) || negb (spec_cond_paused f) || negb (sf_canary_active f) ||
+               match get_cond (es_conds st') ECT_CanaryPaused with
+               | Some c => N.eqb (c_reason c) (es_reason st')
+               | None => false end) 16
   end.
 
 Definition mon_eds (sn : eds_snapshot) (obs : eds_obs) : list N :=
